@@ -374,12 +374,22 @@ ADD_TEXT["C16"] = (" Round 5: one odd byte (NUL, stray continuation, 0xff, lead 
 ADD_TEXT["C11"] = (" Round 5: streams with several descriptor-carrying messages (each in a write of its own, as the protocol demands), one of them split so that its head is read alone "
                    "while its tail and the next descriptor-carrying message arrive together.")
 ADD_TEXT["C13"] += " The trace oracle keeps a ledger of outstanding calls per caller (a call delivered although its caller already has max_replies_per_connection calls outstanding, to whomever, is a violation)."
+ADD_TEXT["C18"] += (" Round 7: 'a monitor can affect nothing' is now a theorem over all histories of the core bus: others_observe_the_same - from every good state "
+                    "(reachable_states_are_good: the invariant of Proofs/Bus/MonInv.lean holds in every reachable state), hence from the empty bus "
+                    "(others_observe_the_same_from_start), the run sends its clients, step by step, exactly what the run without monitors sends (every monitor an idle registered "
+                    "connection without rules; a monitor that speaks is a connection dropped for sending something unacceptable), and the states agree up to shading; "
+                    "step_ignores_monitors is the one-step version, for every event (messages to the driver with all its methods including BecomeMonitor itself, peer traffic, connect, "
+                    "disconnect, invalid bytes, expiry, stall, reload). reachable_monitor_is_inert: in every reachable state a monitor holds no match rule, stands in no queue and is "
+                    "neither caller nor callee of a pending reply.")
+ADD_TEXT["C04"] += (" Round 7: in every reachable state whoever stands in a queue is a connected connection and no monitor (queue_members_are_connected), a connection's services_owned list "
+                   "covers every queue it stands in (owned_names_cover_queues) - so the disconnect path and BecomeMonitor, which walk that list, really take it out of every queue "
+                   "(gone_connection_in_no_queue).")
 NEW_NOTE = {
     "C09": "Partial: 'exactly one NoReply' is 'at most one, exactly one unless the caller's own receive policy refuses the bus's error'; when a recipient's queue is full is an input of the "
            "environment (stall events), not computed from message sizes; timer precision is not modelled (the virtual clock only ever stands at least 100 s away from any deadline).",
-    "C18": "Partial: the full non-interference statement (all histories) is tested differentially on the daemon and holds structurally in the model (mon is write-only); proved is the "
-           "one-dispatch congruence for routing and driver sends (…_partial), not yet the driver's methods, the disconnect path and the induction over histories; in the step in which a "
-           "connection turns into a monitor its own stream is compared as a multiset (the model keeps the two lists apart).",
+    "C18": "Non-interference is proved for every history of the core bus model (step/run); the activation and clock layers (stepA/stepT) are not under the history theorem (a message held "
+           "for a service being started may be delivered after its sender became a monitor - there the per-dispatch theorems and the differential test on the daemon stand). In the "
+           "step in which a connection turns into a monitor its own stream is compared as a multiset (the model keeps the two lists apart). F18 (the peer filter answers monitors) is a known finding.",
     "C05": "Partial: when a queue is full is an input (stall events); which of several connections found ready in one turn of the main loop is served first is not predicted (any order is "
            "accepted); auto-start holding is C19's; the daemon is single-threaded, so 'the moment the bus processes it' is a step of the model.",
 }
